@@ -190,16 +190,23 @@ func checkC05(p *Prog, r *Report) {
 
 	/* 1. */
 	var tlsListen *ssa.Call
+	cfgIdx := 2
 	eachInstr(listen, func(i ssa.Instruction) {
-		if c, ok := i.(*ssa.Call); ok && "crypto/tls.Listen" == calleeName(c.Common()) {
-			tlsListen = c
+		if c, ok := i.(*ssa.Call); ok {
+			switch calleeName(c.Common()) {
+			case "crypto/tls.Listen":
+				tlsListen, cfgIdx = c, 2
+			case "crypto/tls.NewListener":
+				/* tls.Listen is net.Listen + tls.NewListener(inner, config). */
+				tlsListen, cfgIdx = c, 1
+			}
 		}
 	})
 	var served []ssa.Value
 	if nil == tlsListen {
 		rOne.Bad(fnName(listen)+":tls.Listen", listen.Pos(), "Listen does not call tls.Listen")
 	} else {
-		cfg, ok := stripConv(tlsListen.Common().Args[2], false).(*ssa.Alloc)
+		cfg, ok := stripConv(tlsListen.Common().Args[cfgIdx], false).(*ssa.Alloc)
 		if !ok {
 			rOne.Unproven(fnName(listen)+":config", posOf(tlsListen), "tls.Config is not a local composite literal")
 		} else {
@@ -808,7 +815,7 @@ func checkC05Server(p *Prog, r *Report, rSrc, rPins, rPort *Rule) {
 		}
 		nj++
 		cc := fmt.Sprintf("%s:JoinHostPort#%d", fnName(la), nj)
-		rs := valueRoots(c.Common().Args[1], through)
+		rs := p.rootsUp(valueRoots(c.Common().Args[1], through), through)
 		okk := false
 		for _, rt := range rs {
 			switch {
@@ -836,7 +843,8 @@ func checkC05Server(p *Prog, r *Report, rSrc, rPins, rPort *Rule) {
 		}
 		/* When joining onto a user-supplied address, the decision that it
 		has no port must come from net.SplitHostPort. */
-		hostRoots := valueRoots(c.Common().Args[0], func(n string) bool { return strings.HasPrefix(n, "strings.") })
+		hostThrough := func(n string) bool { return strings.HasPrefix(n, "strings.") }
+		hostRoots := p.rootsUp(valueRoots(c.Common().Args[0], hostThrough), hostThrough)
 		user := false
 		for _, rt := range hostRoots {
 			if "field" == rt.Kind && "cbAddrs" == rt.Field.Name() {
